@@ -30,6 +30,8 @@ const INDEPENDENT: &[&str] = &[
     "c := mut 7; deep := mut [[c]]; a := std.convert.to_string(deep); t := ((c, 1), [[c]]); (a, std.convert.to_string(t))",
     "x := mut any 0; x = \"s\"; x = [1]; y := match *x { 1 => 10, a: [int] => 20, => 30, }; (std.convert.to_string(x), y)",
     "a := [true, true, false]~ $&&; b := [false, true]~ $||; c := [12, 10]~ $&; d := [1, 2, 4]~ $|; (a, b, c, d)",
+    "f := (n: int) -> int { r := mut 0; k := mut 0; loop { k += 1; if *k > n { break }; w := mut *k; w *= 2; r += *w }; return *r }; (f(2), f(3))",
+    "v := 6; r := match v { 5, 7 => 1, 6 => 2, => 3, }; s := match \"k\" { \"j\", \"k\" => 10, t: string => 20, }; (r, s)",
 ];
 
 /// Function values shared between threads and called through the host API with per-thread
